@@ -413,6 +413,8 @@ impl Ctx {
                 match r {
                     Ok(mh) => {
                         let len = with_map!(&mh, m => m.len());
+                        #[cfg(feature = "hooks")]
+                        ev.insert("inst".into(), json!(format!("{:x}", with_map!(&mh, m => m.verif_instance_id()))));
                         self.maps.insert(h, MapEnt { h: mh, mapid, dir: d, name: nm, kt });
                         ev.insert("outcome".into(), json!("ok"));
                         if let Ok(l) = len {
@@ -431,6 +433,8 @@ impl Ctx {
                 let e = self.maps.get(&from).ok_or("no such handle")?;
                 let n = MapEnt { h: e.h.clone_h(), mapid: e.mapid.clone(), dir: e.dir.clone(), name: e.name.clone(), kt: e.kt.clone() };
                 ev.insert("m".into(), json!(n.mapid));
+                #[cfg(feature = "hooks")]
+                ev.insert("inst".into(), json!(format!("{:x}", with_map!(&n.h, m => m.verif_instance_id()))));
                 self.maps.insert(h, n);
                 ev.insert("outcome".into(), json!("ok"));
             }
